@@ -597,6 +597,6 @@ func main() {
 			"bounds: <=3 threads, <=2 calls per thread, preemption bound 2/1 (quick) 3/2 (thorough); 2..8 goroutines of the statement are covered up to 3",
 		},
 		QuickBudget:    300 * time.Second,
-		ThoroughBudget: 120 * time.Minute,
+		ThoroughBudget: 45 * time.Minute,
 	})
 }
